@@ -101,7 +101,11 @@ class Draws:
 def impl_select(rng, fronts, costs, markers):
     """Returns (winner position or -1, candidate positions or None)."""
     from artap.operators import TournamentSelector
-    pop = [new_ind([i], c, m, f, 0.0) for i, (f, c, m) in enumerate(zip(fronts, costs, markers))]
+    # crowding distances must not influence the tournament: give the members varied (deterministic) values,
+    # so that a dominated candidate often owns the larger crowding distance
+    crowd_pool = [0.0, float("inf"), 0.7, 2.5]
+    pop = [new_ind([i], c, m, f, crowd_pool[(i * 7 + int(sum(abs(x) for x in c) * 10)) % 4])
+           for i, (f, c, m) in enumerate(zip(fronts, costs, markers))]
     pos = {id(o): i for i, o in enumerate(pop)}
     sel = TournamentSelector([])
     with Draws(rng) as d:
